@@ -25,6 +25,16 @@ def sep_replay(res, nb):
     return sep, nat, text
 
 
+def comment_replay(res, endbyte):
+    """Real parser on `1 ;c<byte>2\\n3`: a comment must run to the line feed (values 1 3); for LF itself 1 2 3."""
+    text = b"1 ;c" + bytes([endbyte]) + b"2\n3"
+    nat = RP.parse(text, "default", "slice", "value")
+    res.replays += 1
+    vals = [it.get("v") for it in nat.get("items", []) if it.get("t") == "int"]
+    want = ["1", "2", "3"] if endbyte == 10 else ["1", "3"]
+    return vals != want, nat, text
+
+
 def claim_whitespace(cx, res, kf):
     res.assumptions.append("loops cut at both headers (skipping loop and comment loop): any amount of trivia")
     eng, rd, fn, info, terms = run_scanner(cx, res, "parse_whitespace", lambda e: ([], [], {}), [], [])
@@ -67,14 +77,21 @@ def claim_whitespace(cx, res, kf):
                 ch, crec = ins[-1]
                 cidx = crec["idx"]
                 cb, ceof, cio = cur_byte(rd, cidx)
+
+                def onc(m, cb=cb, ceof=ceof):
+                    if K.mval(m, ceof) is True:
+                        return {"replayed": None}
+                    bad, nat, text = comment_replay(res, K.mval(m, cb))
+                    return {"replayed": bad, "observed": nat,
+                            "witness": {"kind": "parse", "input_hex": text.hex(), "opts": "default", "src": "slice", "api": "value", "fast": True}}
                 if target == ch:
                     seen["comment_in"] += 1
                     res.must_be_unsat(pc + [z3.Not(z3.And(z3.Not(cio), z3.Not(ceof), cb != bv(10, 8), st.notes["idx"] == cidx + 1))],
-                                      "comment loop continues past a line feed / EOF or does not advance by one byte")
+                                      "comment loop continues past a line feed / EOF or does not advance by one byte", onc)
                 else:
                     seen["comment_end"] += 1
                     res.must_be_unsat(pc + [z3.Not(z3.And(z3.Not(cio), z3.Not(ceof), cb == bv(10, 8), st.notes["idx"] == cidx + 1))],
-                                      "comment ends on something other than a line feed")
+                                      "comment ends on something other than a line feed", onc)
                 # the comment was entered on ';' at the outer header
                 oidx = ins[0][1]["idx"]
                 ob, oeof, oio = cur_byte(rd, oidx)
